@@ -10,7 +10,7 @@ use crate::{
     framework::{CaseResult, Check, CheckInfo, Tier, Violation},
     rng::{derive, Rng},
     shrink,
-    sim::{self, Class, Knobs, Outcome, RunOpts, Scenario, Sched, WdPlan},
+    sim::{self, Api, Class, Knobs, Outcome, RunOpts, Scenario, Sched, WdPlan},
     workload::{self, Corpus},
 };
 
@@ -175,10 +175,23 @@ fn first_divergence(code: &[u8], knobs: &Knobs, scheds: &[Sched], res: Option<&m
     let mut reference: Option<Outcome> = None;
     let mut found = None;
     let mut res = res;
-    for (i, s) in scheds.iter().enumerate() {
+    // The sweep ends with the reference schedule once more: analyses share
+    // objects (the slot-hash table, whatever else a change may introduce), so
+    // the same run after fourteen others must still be the same run.
+    let again = scheds[0].clone();
+    let sweep: Vec<&Sched> = scheds.iter().chain(std::iter::once(&again)).collect();
+    for (i, s) in sweep.into_iter().enumerate() {
+        let i = if i == scheds.len() { 0 } else { i };
         let mut sc = Scenario::simple(code.to_vec());
         sc.knobs = knobs.clone();
         sc.sched = s.clone();
+        // The same bytecode and configuration must give the same answer
+        // through every way of calling the pipeline.
+        sc.api = match i % 4 {
+            1 => Api::Staged(4),
+            2 => Api::Phases,
+            _ => Api::OneCall,
+        };
         // A step budget instead of the lazy watchdog: a run that does not
         // halt is C03's business and is left out of the comparison here.
         sc.wd = WdPlan::budget(1, BUDGET.with(std::cell::Cell::get));
@@ -261,7 +274,7 @@ impl Check for C02Check {
         CheckInfo {
             id: "C02",
             level: "exploration",
-            rule: "case = one generated program (storage idioms 60%, stack-aware 20%, control-flow 10%, mutated corpus 10%) + knobs (default 70%, swarm 30%), analysed under a reference schedule and S further schedules (natural hash keys, reverse-all, fold sorted by kind asc/desc, shuffle-all, seeded random site subsets); evaluations = simulated runs; a run is non-trivial when the unifier folded at least one class holding >= 2 pieces of evidence; distinct = distinct (program, fold-order digest) pairs, counted with a hash set",
+            rule: "case = one generated program (storage idioms 60%, stack-aware 20%, control-flow 10%, mutated corpus 10%) + knobs (default 70%, swarm 30%), analysed under a reference schedule and S further schedules (natural hash keys, reverse-all, fold sorted by kind asc/desc, shuffle-all, seeded random site subsets), rotating through the three ways of calling the pipeline (analyze(), the staged extractor calls, VM + type-checker phases one by one); evaluations = simulated runs; a run is non-trivial when the unifier folded at least one class holding >= 2 pieces of evidence; distinct = distinct (program, fold-order digest) pairs, counted with a hash set",
             assumptions: &[
                 "all order-sensitive iteration in the library goes through std HashMap/HashSet, which the cfg hook replaces (BiMap in the slot-hash table is only used for keyed look-ups)",
                 "equality of results is the library's own StorageLayout PartialEq (conflict payloads ignored) plus the success/failure class",
